@@ -38,6 +38,10 @@ def jobs(tier, seed):
     # integer zones and integer categories (the usual land-cover case)
     out.append({'name': 'xtab2d-1x3-count-none-int', 'kind': '2d', 'shape': [1, 3], 'agg': 'count', 'sel': 'none', 'zdtype': 'int32', 'vdtype': 'int32'})
     out.append({'name': 'xtab2d-1x2-percentage-cat1-int', 'kind': '2d', 'shape': [1, 2], 'agg': 'percentage', 'sel': 'cat1', 'zdtype': 'uint8', 'vdtype': 'int64'})
+    # the category dimension in the middle / at the end of the 3-D values (layer=1, layer=-1), non-square raster
+    for lay in (1, -1, -2):
+        out.append({'name': 'xtab3d-2x2-sum-none-layer%d' % lay, 'kind': '3d', 'shape': [2, 2], 'agg': 'sum', 'sel': 'none', 'layer': lay})
+        out.append({'name': 'xtab3d-1x3-count-cat1-layer%d' % lay, 'kind': '3d', 'shape': [1, 3], 'agg': 'count', 'sel': 'cat1', 'layer': lay})
     # non-finite zone ids (NaN, +-inf) are no zones: their cells belong to no row and must not disturb the others
     out.append({'name': 'xtab2d-1x3-count-none-zinf', 'kind': '2d', 'shape': [1, 3], 'agg': 'count', 'sel': 'none', 'zinf': True})
     out.append({'name': 'xtab3d-1x3-sum-none-zinf', 'kind': '3d', 'shape': [1, 3], 'agg': 'sum', 'sel': 'none', 'zinf': True})
@@ -139,7 +143,7 @@ def body(ctx, job):
         L = 2
         vals_d = ctx.array('v', (L, h, w), 'float64', nan=True)
         labels = symnp.asarray([10, 20])
-        values = ctx_raster3(vals_d, labels)
+        values = ctx_raster3(vals_d, labels, job.get('layer'))
         if sel == 'cat1':
             cat_ids = [20]
         if agg in ('max', 'min'):
@@ -147,7 +151,7 @@ def body(ctx, job):
             for li in range(L):
                 for k in range(n):
                     ctx.assume(And(Not(isnan(vals_d[li].flat_values()[k])), vals_d[li].flat_values()[k] != nodata))
-        df = ctx.call('zonal:crosstab', zones, values, zone_ids, cat_ids, None, agg, nodata)
+        df = ctx.call('zonal:crosstab', zones, values, zone_ids, cat_ids, job.get('layer'), agg, nodata)
         rows = df['zone'].vals
         cols = [c for c in df.columns if not isinstance(c, str)]
         ctx.check('3d-columns', [sc.as_const(c) if sc.is_sym(c) else c for c in cols] == ([20] if sel == 'cat1' else [10, 20]))
@@ -178,8 +182,14 @@ def body(ctx, job):
                     ctx.check('3d-entry-' + agg, And(ge, att))
 
 
-def ctx_raster3(data, labels):
+def ctx_raster3(data, labels, layer=None):
+    """data is (layer, y, x); `layer` = position of the category dimension in the DataArray handed to crosstab"""
     from sx import symxr
     L, h, w = data.shape
-    return symxr.DataArray(data, dims=('layer', 'y', 'x'),
-                           coords={'layer': labels, 'y': coords_affine(h, float(h - 1), -1.0), 'x': coords_affine(w, 0.0, 1.0)}, name='values3')
+    coords = {'layer': labels, 'y': coords_affine(h, float(h - 1), -1.0), 'x': coords_affine(w, 0.0, 1.0)}
+    pos = {None: 0, 0: 0, -3: 0, 1: 1, -2: 1, 2: 2, -1: 2}[layer]
+    if pos == 0:
+        return symxr.DataArray(data, dims=('layer', 'y', 'x'), coords=coords, name='values3')
+    if pos == 1:
+        return symxr.DataArray(data.transpose(1, 0, 2), dims=('y', 'layer', 'x'), coords=coords, name='values3')
+    return symxr.DataArray(data.transpose(1, 2, 0), dims=('y', 'x', 'layer'), coords=coords, name='values3')
